@@ -39,7 +39,9 @@ def gen_table(rng, flavour=None):
     a1_prep = rng.choice([None, None, ("id",), ("addint", 1)])
     c50_prep_item = rng.choice([None, None, None, ("addint", 10), ("id",)])
     c51_prep_item = rng.choice([None, None, None, ("addint", 10), ("id",)])
-    c52_prep_item = rng.choice([None, None, None, ("addint", 10), ("id",)])
+    # (no item preparer on the set attribute: Python iterates a set in hash order, the model in
+    # insertion order, and with a callback made to fail at its n-th invocation the order shows)
+    c52_prep_item = None
     k2_attrs = [
         {"aid": 1, "ty": INT, "default": rng.choice([None, V(3)]), "decl": decl(), "prepare": a1_prep},
         {"aid": 4, "ty": ("spec", 1), "default": a4d, "factory": a4f, "dnc": rng.random() < 0.15},
@@ -54,6 +56,12 @@ def gen_table(rng, flavour=None):
         {"aid": 3, "ty": ("opt", INT), "default": rng.choice([None, NONE, V(4)]), "decl": "Attr",
          "inv_by": rng.choice([[], [], [1], [99]])},
     ]
+    if flavour == "inv_factory":
+        # a dependant whose reset runs a default factory (a user callback that may raise): the
+        # set attribute is invalidated by attribute 1.  Exactly one dependant: the implementation
+        # resets several dependants in set-iteration order, which the model does not have.
+        k2_attrs[4].update(default=None, factory=("set", []), inv_by=[1], decl="Attr")
+        k2_attrs[7]["inv_by"] = []
     k2 = {"id": 2, "eager": rng.random() < 0.5, "frozen": k2_frozen, "attrs": k2_attrs,
           "post_copy": rng.choice([None, None, None, ("id",)])}
     k3 = {"id": 3, "base": 2, "eager": rng.random() < 0.5, "frozen": k2_frozen, "frozen_inherited": True, "attrs": [
